@@ -290,13 +290,6 @@ func runReplay(h *hctx, path string) {
 			evalOnce(h, scs)
 			return
 		}
-		if sc.Plain && h.pcfg.Overlay {
-			wired := childBin
-			childBin = os.Args[0]
-			procCase(h, &sc)
-			childBin = wired
-			return
-		}
 		procCase(h, &sc)
 	case "marshal":
 		sh, _ := parseHexList(str(rp["shards"]))
